@@ -155,7 +155,7 @@ class Core:
         sa = self.sa
         tried = []
         back, run, out = sa.loop_effect(f, loop)
-        unresolved = list(run.unresolved)
+        unresolved = list(run.unresolved) + list(run.unknown_calls)
         if back is None:
             return Cert("K0", "no path of the body reaches the back edge (every path leaves by break/return/raise)")
         # --- K1 / K2: forward progress on a stream -----------------------------------------
@@ -336,15 +336,16 @@ class Core:
         if not const_assigns:
             return Cert(None, why="%s never assigns a constant terminal event to self.%s" % (M.qualname, ev))
         cfg = CFG(M.node)
-        last_why = ""
+        whys = {}
         for terminal in sorted(const_assigns):
             r = self._event_consumer_for(f, loop, s_next, var, call, x, t, M, msn, ev, flag, terminal, const_assigns[terminal], ev_assigns, cfg)
             if r:
                 return r
-            last_why = r.why or last_why
             if r.unresolved:
                 return r
-        return Cert(None, why=last_why)
+            whys.setdefault(getattr(r, "stage", 1), r.why)
+        # prefer the explanation of a candidate whose stepper side was fine (the consumer is what is broken)
+        return Cert(None, why=whys.get(2) or whys.get(1) or "")
 
     def _event_consumer_for(self, f, loop, s_next, var, call, x, t, M, msn, ev, flag, terminal, term_assigns, ev_assigns, cfg):
         sa = self.sa
@@ -392,8 +393,10 @@ class Core:
         # 6. the consumer leaves on the terminal event on every path (path-sensitive on tested constants)
         bad = self._terminal_reaches_back_edge(f, loop, s_next, var, terminal)
         if bad is not None:
-            return Cert(None, why="a path from `%s` reaches the back edge while the event may still be the terminal event %d (via `%s`); "
-                        "the stepper returns immediately once it is set and `%s` stays true" % (_u(s_next, 40), terminal, _u(bad, 50), _u(loop.test, 40)))
+            c = Cert(None, why="a path from `%s` reaches the back edge while the event may still be the terminal event %d (via `%s`); "
+                     "the stepper makes no progress once it is set and `%s` stays true" % (_u(s_next, 40), terminal, _u(bad, 50), _u(loop.test, 40)))
+            c.stage = 2
+            return c
         # 7. nothing else in the body moves X's stream
         bk, rn, _ = sa.loop_effect(f, loop)
         rn2 = _Run(sa, f)
@@ -595,7 +598,7 @@ class Core:
             if p[0] >= 1 and a >= 1:
                 return Cert("K1", "every iteration advances `%s` by %s with >= %d anchored checked byte(s)" % (key, iv_str(p), a))
             tried.append("stream `%s`: net advance %s, anchored checked bytes >= %d" % (key, iv_str(p), a))
-        return Cert(None, why="; ".join(tried) if tried else "the body reads no stream", unresolved=list(run.unresolved))
+        return Cert(None, why="; ".join(tried) if tried else "the body reads no stream", unresolved=list(run.unresolved) + list(run.unknown_calls))
 
     # ------------------------------------------------------------------ recursion
     def precise_graph(self, funcs):
@@ -797,8 +800,43 @@ def _check_collection_for(core, sink, f, fo, seen):
 
 
 # =============================================================================
+FIXTURE_EXPECT = {"while_bad": False, "while_ok": True, "while_eof_exit_ok": True, "seek_back_bad": False, "counted_bad": False,
+                  "counted_ok": True, "counter_bad": False, "counter_ok": True}
+
+
+def fixture_selfcheck(ctx):
+    """the rule must fire on the positive examples of fixtures/C35 and certify the negative ones
+    (guards against a vacuous pass once the repository carries no finding any more)"""
+    import os
+    from ..model import Repo
+    from ..report import VERIF
+    root = os.path.join(VERIF, "fixtures", "C35")
+    if not os.path.isdir(os.path.join(root, "androguard")):
+        raise AnalysisError("fixture fixtures/C35 is missing")
+    core = Core(Repo(root))
+    rel = "androguard/fx.py"
+    for name, want in sorted(FIXTURE_EXPECT.items()):
+        f = core.cg.func(rel, name)
+        sk = _Collect()
+        check_function(core, sk, f, in_scope=True, seen={})
+        got = not sk.bad and bool(sk.good)
+        ctx.ob("fixture", name, got == want, "certified" if got else ("reported: " + (sk.bad[0][2][:120] if sk.bad else "nothing examined")))
+        if got != want:
+            raise AnalysisError("fixture %s: expected %s, rule says %s -- the rule lost its teeth / over-reports"
+                                % (name, "a certificate" if want else "a finding", "certified" if got else "finding"))
+    for name, want in (("rec_bad", False), ("rec_ok", True)):
+        f = core.cg.func(rel, name)
+        comps = core.recursive_sccs([f])
+        got = bool(comps) and bool(core.certify_scc(comps[0])[0])
+        ctx.ob("fixture", name, got == want, "K5 certified" if got else "recursion without progress reported")
+        if got != want or not comps:
+            raise AnalysisError("fixture %s: recursion certificate check gave the wrong verdict" % name)
+    ctx.count("fixture_cases", len(FIXTURE_EXPECT) + 2)
+
+
 def run(ctx):
     ctx.explanation = __doc__
+    fixture_selfcheck(ctx)
     for rel in PARSER_MODULES:
         ctx.mod(rel)
     core = Core(ctx.repo)
@@ -816,10 +854,11 @@ def run(ctx):
     seen = {}
     inventory = 0
     funcs_in_modules = []
-    for rel in PARSER_MODULES:
-        for f in cg.funcs.values():
-            if f.file == rel:
-                funcs_in_modules.append(f)
+    pending = [f for f in cg.funcs.values() if f.file in PARSER_MODULES]
+    while pending:
+        f = pending.pop()
+        funcs_in_modules.append(f)
+        pending += list(cg.nested_of(f).values())   # nested defs are registered lazily
     funcs_in_modules.sort(key=lambda f: (f.file, f.line, f.qualname))
     done = set()
     for f in funcs_in_modules + sorted(closure, key=lambda f: (f.file, f.line, f.qualname)):
@@ -1086,7 +1125,7 @@ def thorough(ctx, core, closure):
     in_closure = {id(f.node) for f in closure}
     wider = _Collect()
     n_out = 0
-    for f in sorted(core.cg.funcs.values(), key=lambda f: (f.file, f.line, f.qualname)):
+    for f in sorted(list(core.cg.funcs.values()), key=lambda f: (f.file, f.line, f.qualname)):
         if f.file in PARSER_MODULES and id(f.node) not in in_closure:
             w, fo, co = loops_of(f.node)
             if fo or co:
@@ -1099,7 +1138,7 @@ def thorough(ctx, core, closure):
                                         uncertified=[dict(rule=r, instance=i, why=m[:200]) for r, i, m in wider.bad][:40])
     ctx.note("thorough: %d functions with loops outside the parser closure inspected (informational, not obligations): %d loop(s) without certificate"
              % (n_out, len(wider.bad)))
-    all_funcs = [f for f in core.cg.funcs.values() if f.file in PARSER_MODULES]
+    all_funcs = [f for f in list(core.cg.funcs.values()) if f.file in PARSER_MODULES]
     for comp in core.recursive_sccs(all_funcs):
         if all(id(f.node) in in_closure for f in comp):
             continue
